@@ -318,8 +318,6 @@ structure SeqInfo where
   endOrd : Nat
   endRow : Nat
   num : Nat
-  /-- `p->scan[0].num`: what `xmp_start_player` leaves in `flow.end_point` -/
-  num0 : Nat := 0
   deriving Repr, Inhabited
 
 structure PlaySt where
@@ -424,18 +422,15 @@ def skipMarkers (m : LinMod) : Nat → Nat → Nat
   | fuel + 1, pos =>
     if m.marker ∧ pos < m.len ∧ m.patOf pos = 0xfe then skipMarkers m fuel (pos + 1) else pos
 
-/-- `flow.end_point` after `xmp_start_player`, `xmp_set_position(entry point)` and the
-reposition branch of the next `xmp_play_frame`:
-* `xmp_start_player` leaves `scan[0].num`;
-* `set_position` stores `pos > scan.ord ? 0 : scan.num` only if the position it
-  settles on (after skipping 0xfe markers) holds a valid pattern;
-* `xmp_play_frame` stores `scan.num` if `p->pos` is the entry point, then 0 if
-  `p->pos > scan.ord`. -/
+/-- `flow.end_point` after `xmp_set_position(entry point)` and the reposition
+branch of the next `xmp_play_frame`: `set_position` stores
+`pos > scan.ord ? 0 : scan.num` for the position it settles on (after skipping
+0xfe markers; since fix 37bee1c also when that order holds no pattern);
+`xmp_play_frame` stores `scan.num` if `p->pos` is the entry point, then 0 if
+`p->pos > scan.ord`. -/
 def PlayEnv.startEndPoint (e : PlayEnv) : Int :=
-  let m := e.m
-  let pos := skipMarkers m m.len e.si.ep
-  let e1 : Int := if pos < m.len ∧ m.patOf pos < m.npat then
-      (if pos > e.si.endOrd then 0 else (e.si.num : Int)) else (e.si.num0 : Int)
+  let pos := skipMarkers e.m e.m.len e.si.ep
+  let e1 : Int := if pos > e.si.endOrd then 0 else (e.si.num : Int)
   let e2 : Int := if pos = e.si.ep then (e.si.num : Int) else e1
   if pos > e.si.endOrd then 0 else e2
 
@@ -471,8 +466,7 @@ def PlayEnv.run (e : PlayEnv) (fuel : Nat) : List PlaySt :=
 def SeqScan.env (sc : SeqScan) (m : LinMod) (k : Nat) : PlayEnv :=
   let r := sc.seqs.getD k default
   { m := m,
-    si := { seq := k, ep := r.ep, endOrd := r.res.endOrd, endRow := r.res.endRow, num := r.res.num,
-            num0 := (sc.seqs.getD 0 default).res.num },
+    si := { seq := k, ep := r.ep, endOrd := r.res.endOrd, endRow := r.res.endRow, num := r.res.num },
     ctl := sc.ctl, info := sc.info }
 
 /-- rows entered (first frame of a row) in a list of rendered frames -/
